@@ -457,6 +457,11 @@ class WorkWorld(World):
             ctx.probe('growth-checked')
 
     # ------------------------------------------------------------------ boc bytes
+    @staticmethod
+    def _as_text(data, form):
+        import base64
+        return base64.b64encode(data).decode() if form == 'b64' else (data.hex().upper() if form == 'HEX' else data.hex())
+
     def run_boc_bytes(self, ctx, ops):
         cfg = ctx.cfg
         if cfg.get('ladder'):
@@ -529,10 +534,16 @@ class WorkWorld(World):
                 plan.append({'kind': 'multi', 'seed': ctx.rng.getrandbits(32)})
             for ln in range(0, L, 7):
                 plan.append({'kind': 'truncate', 'len': ln})
+            # the same bag as TEXT (the parser takes hex and base64 strings too), cut at every length: broken padding, odd digit
+            # counts, groups of 4k+1 characters
+            for form in ('b64', 'hex', 'HEX'):
+                tl = len(self._as_text(data, form))
+                for ln in list(range(0, min(tl, 48))) + list(range(max(0, tl - 12), tl + 1)):
+                    plan.append({'kind': 'text', 'form': form, 'len': ln})
         else:
             plan = [o['damage'] for o in ops if o['op'] == 'parse']
         for d in plan:
-            inp = damaged(d)
+            inp = self._as_text(data, d['form'])[:d['len']] if d['kind'] == 'text' else damaged(d)
             budget = bytes_budget(len(inp))
             st, res, steps = metered(budget, Cell.from_boc, inp)
             ctx.evaluated(1)
